@@ -67,3 +67,20 @@ Example C16_timer_example :
   let c := irun [IWake; ICheck; IEmit; IAbort; IReturn; IWorker] (iinit 7 true) in
   i_log c = [(0, 7)] /\ q_worker (i_q c) = WExited.
 Proof. vm_compute. split; reflexivity. Qed.
+
+(* sample and debounce: a one-place slot between the source and ONE consuming thread (sample: the trigger's thread; debounce:
+   its worker).  For EVERY interleaving of the source's stores with the consumer's take-and-deliver steps the subscriber
+   receives only items the source has emitted, in source order, none twice (strictly increasing script positions). *)
+From RX Require Import ConcSlot.
+From RXP Require Import SlotConc.
+Theorem C16_sample_debounce_in_order_once :
+  forall acts, strictly_increasing (l_out (lrun acts)) = true /\ forall i, In i (l_out (lrun acts)) -> i < l_next (lrun acts).
+Proof. exact slot_delivers_in_order_once. Qed.
+Check C16_sample_debounce_in_order_once :
+  forall acts, strictly_increasing (l_out (lrun acts)) = true /\ forall i, In i (l_out (lrun acts)) -> i < l_next (lrun acts).
+Print Assumptions C16_sample_debounce_in_order_once.
+(* non-vacuity: items 0 and 2 are handed on, item 1 is overwritten, item 3 is still pending *)
+Example C16_slot_example :
+  let s := lrun [LPut; LTake; LPut; LDeliver; LPut; LTake; LDeliver; LPut; LTake] in
+  (l_out s, l_hand s, l_next s) = ([0; 2], Some 3, 4).
+Proof. vm_compute. reflexivity. Qed.
